@@ -84,7 +84,9 @@ theorem runCl_frame {α : Type} (role : Role) (p : Prog α) : ∀ (c : Ctx) (s :
 /-- command words whose handler model takes the context into account (clock, map order, random picks) -/
 def envSensitive : List Bytes :=
   [b "set", b "ttl", b "pttl", b "expire", b "pexpire", b "getex", b "spop",
-   b "sinter", b "sintercard", b "sinterstore", b "sunion", b "sunionstore"]
+   b "sinter", b "sintercard", b "sinterstore", b "sunion", b "sunionstore",
+   -- sorted-set handlers whose model reads the map-order / tie oracle of the context
+   b "zlexcount", b "zmpop", b "zpopmax", b "zpopmin", b "zrange", b "zrangestore", b "zrank", b "zremrangebyrank", b "zrevrank"]
 
 theorem table_env_free : ∀ e ∈ handlerTable, e.1 ∉ envSensitive →
     ∀ (c c' : Ctx) (cmd : List Bytes), e.2 c cmd = e.2 c' cmd := by
